@@ -606,7 +606,8 @@ Definition add_interface (st : dstate) (r : osrow) (now : N) (js : list N) : dst
   end.
 
 (* del_interface_addr: the address leaves the interface; the last address takes the interface and
-   its registry with it; addr_auto services lose the address *)
+   its registry with it; addr_auto services lose the address (and IpDel is reported) only if no
+   interface the daemon still has holds that IP (fix 0f7c6ac) *)
 Definition del_interface_addr (st : dstate) (r : osrow) : dstate * list out :=
   let idx := os_index r in
   match find_intf st idx with
@@ -615,17 +616,17 @@ Definition del_interface_addr (st : dstate) (r : osrow) : dstate * list out :=
     if negb (has_addr itf0 (os_ip r)) then (st, [])
     else
       let addrs := filter (fun a => negb (beq (ia_ip a) (os_ip r))) (if_addrs itf0) in
-      let svcs := map (fun ks => (fst ks, if s_auto (snd ks) then set_addrs (del_ip (os_ip r) (s_addrs (snd ks))) (snd ks)
-                                          else snd ks)) (d_svcs st) in
-      let ev := mon (d_mon st) [OIp false (os_ip r)] in
-      match addrs with
-      | [] =>
-        (mkD (filter (fun i => negb (if_index i =? idx)) (d_intfs st)) (nremove idx (d_regs st)) svcs
-             (d_retrans st) (d_mon st) (d_dead st) (d_os st) (d_sel st), ev)
-      | _ =>
-        (mkD (map (fun i => if if_index i =? idx then mkIntf idx (if_name itf0) addrs else i) (d_intfs st))
-             (d_regs st) svcs (d_retrans st) (d_mon st) (d_dead st) (d_os st) (d_sel st), ev)
-      end
+      let intfs' := match addrs with
+                    | [] => filter (fun i => negb (if_index i =? idx)) (d_intfs st)
+                    | _ => map (fun i => if if_index i =? idx then mkIntf idx (if_name itf0) addrs else i) (d_intfs st)
+                    end in
+      let regs' := match addrs with [] => nremove idx (d_regs st) | _ => d_regs st end in
+      let held := existsb (fun i => has_addr i (os_ip r)) intfs' in
+      let svcs := if held then d_svcs st
+                  else map (fun ks => (fst ks, if s_auto (snd ks) then set_addrs (del_ip (os_ip r) (s_addrs (snd ks))) (snd ks)
+                                               else snd ks)) (d_svcs st) in
+      let ev := if held then [] else mon (d_mon st) [OIp false (os_ip r)] in
+      (mkD intfs' regs' svcs (d_retrans st) (d_mon st) (d_dead st) (d_os st) (d_sel st), ev)
   end.
 
 Fixpoint apply_rows (st : dstate) (rows : list osrow) (now : N) (js : list N) : dstate * list out * list N :=
